@@ -49,6 +49,36 @@ func c27Child() {
 				}
 			}
 		}
+	case "handle-close-faults":
+		// closing a read handle fails (every k-th close, k = 1..4, and every close)
+		cfg := quietConfig()
+		cfg.BloomFalsePositiveRate = 0.01
+		cfg.PartitionFunc = partByShape
+		w, err := newWorld(cfg, nil)
+		if err != nil {
+			os.Exit(3)
+		}
+		putChunks(w, alphaRows()[:120], 30)
+		for k := 0; k <= 4; k++ {
+			n := 0
+			w.Data.Hook = &hstore.Hook{Enter: func(op, ptr string, _ int) error {
+				if op == "HandleClose" {
+					n++
+					if k == 0 || n%k == 0 {
+						return fmt.Errorf("injected: read handle close failed")
+					}
+				}
+				return nil
+			}}
+			for _, q := range []*bs.Query{nil, bs.NewQuery().Field("a").Build(), bs.NewQuery().Token("x").Build(), bs.NewQuery().FieldRegex("a", "x").Build()} {
+				w.Query(q)
+				runs++
+			}
+			w.Eng.Merge(context.Background())
+			runs++
+		}
+		w.Data.Hook = nil
+		w.Close()
 	case "query-faults":
 		for _, lay := range layoutsFor("quick") {
 			if lay.name == "external-writer" || lay.name == "chunks7-snappy-part" {
@@ -204,12 +234,12 @@ func init() {
 	modes["C27"] = ModeSpec{
 		Cases: func(tier string) []Case {
 			var cs []Case
-			for _, s := range []string{"flush-faults", "merge-faults", "flush-fault-pairs", "merge-fault-pairs", "query-faults", "corrupt-files", "missing-filters", "stop-deadline", "lifecycle"} {
+			for _, s := range []string{"flush-faults", "merge-faults", "flush-fault-pairs", "merge-fault-pairs", "query-faults", "handle-close-faults", "corrupt-files", "missing-filters", "stop-deadline", "lifecycle"} {
 				s := s
 				cs = append(cs, Case{ID: s, Run: func() CaseResult { return c27Parent(s) }})
 			}
 			return cs
 		},
-		Rule: "nine scenario groups (every single-fault flush run, every single-fault merge run, every ordered pair of failing store calls in a flush history and in a merge, a failure at every DataStore call position of 10 queries over two layouts, truncations/extensions/splices and CRC-consistent framing corruptions queried in both flows, external files with absent filters, Stop deadlines against stores wedged at each call kind, a plain lifecycle incl. rejected batches and an invalid regex) each run in a child process with Logger nil whose descriptors 1 and 2 are regular files; both files must stay empty",
+		Rule: "ten scenario groups (read handles whose Close fails during queries and merges, every single-fault flush run, every single-fault merge run, every ordered pair of failing store calls in a flush history and in a merge, a failure at every DataStore call position of 10 queries over two layouts, truncations/extensions/splices and CRC-consistent framing corruptions queried in both flows, external files with absent filters, Stop deadlines against stores wedged at each call kind, a plain lifecycle incl. rejected batches and an invalid regex) each run in a child process with Logger nil whose descriptors 1 and 2 are regular files; both files must stay empty",
 	}
 }
